@@ -66,6 +66,29 @@ CLAIMED = {
    note="Trusted: Lean kernel; HashMap modelled as a duplicate-free association list; correspondence sampled.",
    design="DESIGN.md §7 C15",
    technique="Lean 4 theorem (registry history refines last-live lookup) + registry correspondence stream"),
+ "C01": dict(
+   text="Machine-checked theorem (Lean 4): for every string that compiles to a core expression (any nesting/combination of identifiers, "
+        "sub-expressions, indexes, slices, flatten, wildcards, filters, pipes, multi-selects, literals, @, ! && ||, comparators) and every "
+        "JSON document, the model of interpreter.rs returns exactly the value an independently written denotational semantics of the "
+        "specification assigns (C01_search = parser soundness T1 + C01_conformance, by mutual induction over the concrete syntax; 7 lemma "
+        "files). A size side condition bounds the widest array evaluation can build by i32::MAX (the slice code's own assumption); a "
+        "machine-checked counterexample shows some such condition is necessary. Tied to the code by the `eval` stream: implementation vs "
+        "model vs the semantics evaluated by the driver, on the compliance suite's expression x document cross product and generated pairs.",
+   note="Trusted: Lean kernel; Spec/Sem.lean as the reading of the specification (comparators delegated to C10's operator, slices to C07's rule); "
+        "interpreter/parser/value models correspond to the code as sampled; arrays wider than 2^31-1 are outside the theorem (and outside any test).",
+   design="DESIGN.md §7 C01",
+   technique="Lean 4 theorem (interpreter model = denotational semantics on all core expressions) + correspondence check with the semantics as oracle"),
+ "C12": dict(
+   text="Machine-checked theorems (Lean 4): line/column computed by JmespathError::new are exactly the zero-based line and character column "
+        "of the byte offset for any text (loop invariant), Display inserts the caret line under that column (render shape), every token / "
+        "lex-error / parse-error / tree offset is a character boundary inside the expression, a call node's offset is the position of its "
+        "`(` and a slice's of its `]` (induction over all 15 parser functions), validation errors carry the offset of the call being "
+        "validated, unknown-function and invalid-slice errors the offset of their node. Tied to the code by the `eval` and `errfmt` streams "
+        "plus implementation-only oracles (class, expression text, boundary, line/column, caret rendering, `(` / `]` under the offset).",
+   note="Trusted: Lean kernel; models of errors.rs/lexer.rs/parser.rs/interpreter.rs as sampled by the streams. Known finding F14 (sum/avg "
+        "overflow yields a Parse-class error without expression) is listed, not suppressed beyond its class.",
+   design="DESIGN.md §7 C12",
+   technique="Lean 4 theorems (line/column spec, offsets are token positions) + correspondence + implementation-only location oracles"),
 }
 
 NOT_YET = "check not built yet in this session (work in progress; see DESIGN.md §10 for the order of work)"
